@@ -1115,7 +1115,7 @@ cmd_res(void) {
 
 static void
 cmd_resmod(void) {
-  /* resmod <n> <pathhex> [obs=0|1] [attr=namehex:valhex]   change a registered resource */
+  /* resmod <n> <pathhex> [obs=0|1] [attr=namehex:valhex] [code=N]  change a registered resource */
   node_t *nd = &nodes[atoi(tok[1])];
   size_t plen;
   uint8_t *p = vf_unhex(tok[2], strlen(tok[2]), &plen);
@@ -1125,6 +1125,8 @@ cmd_resmod(void) {
   int ok = r != NULL;
   if (r && (v = kv("obs", NULL)))
     coap_resource_set_get_observable(r, atoi(v));
+  if (r && (v = kv("code", NULL)) && coap_resource_get_userdata(r))
+    ((rcfg_t *)coap_resource_get_userdata(r))->code = atoi(v); /* -1: back to the default */
   if (r && (v = kv("attr", NULL))) {
     char *dup = strdup(v), *c = strchr(dup, ':');
     size_t nl, vl = 0;
